@@ -353,6 +353,55 @@ def dty_sexp(U, t):
     raise ValueError(t)
 
 
+def texp_sexp(U, d, te):
+    """a declared field type as a type expression of Model/Generic.v, or None when it mentions a
+    parameter under a constructor the expression language of that file does not have"""
+    k = te[0]
+    if k == "param":
+        return "(p %d)" % d.tparams.index(te[1])
+    if not any(mentions(te, p) for p in d.tparams):
+        return "(c %s)" % model_ty(U, te)
+    if k in ("ph", "vec", "bslice", "opt"):
+        e = texp_sexp(U, d, te[1])
+        return e and "(%s %s)" % (k, e)
+    if k == "arr":
+        e = texp_sexp(U, d, te[2])
+        return e and "(arr %x %s)" % (te[1], e)
+    return None
+
+
+def gdef_sexp(U, d):
+    """a deep-copy generic definition before instantiation (Model/Generic.v gdef), or None"""
+    def fs(l):
+        out = []
+        for (n, te) in l:
+            e = texp_sexp(U, d, te)
+            if e is None:
+                return None
+            out.append("(f %s %s)" % (hx(n.encode()), e))
+        return " ".join(out)
+    if d.kind == "struct":
+        f = fs(d.body)
+        return None if f is None else "(gdef %s %d 1 (%s) ())" % (model_info(d), len(d.tparams), f)
+    vs = []
+    for (vn, st, l) in d.body:
+        f = fs(l)
+        if f is None:
+            return None
+        vs.append("(v %s %d %s)" % (hx(vn.encode()), 1 if st != "tuple" else 0, f))
+    return "(gdef %s %d 0 () (%s))" % (model_info(d), len(d.tparams), " ".join(vs))
+
+
+def gen_expected(U, t):
+    """what Model/Generic.v must say about the instance t = S<args> of a definition of the grammar:
+    inside the boundary, instantiating to the type the campaign uses, and with exactly the
+    parameters that are the type of a field replaced by their eps-copy type"""
+    d = U.defs[t[1]]
+    bare = bare_params(d)
+    dargs = [dty_sexp(U, desertype(U, a)) if p in bare else dty_sexp(U, a) for p, a in zip(d.tparams, t[2])]
+    return "wf=1 inst=same dargs=%s" % ";".join(dargs)
+
+
 def scale_borrowed(U, t, v, k):
     """the same value with every sequence that ε-copy deserialization returns as a borrowed
     slice / str made k times longer (same skeleton); None if nothing is borrowed with a length"""
